@@ -516,33 +516,19 @@ impl<'a> From<Piece<'a>> for Chunk {
                     }
 
                     let key = match formatter.args.first() {
-                        Some(arg) => {
-                            if let Some(arg) = arg.first() {
-                                match arg {
-                                    Piece::Text(key) => key.to_owned(),
-                                    Piece::Error(ref e) => return Chunk::Error(e.clone()),
-                                    _ => return Chunk::Error("invalid MDC key".to_owned()),
-                                }
-                            } else {
-                                return Chunk::Error("invalid MDC key".to_owned());
-                            }
-                        }
+                        Some(arg) => match literal_arg(arg, "invalid MDC key") {
+                            Ok(key) => key,
+                            Err(e) => return Chunk::Error(e),
+                        },
                         None => return Chunk::Error("missing MDC key".to_owned()),
                     };
 
                     let default = match formatter.args.get(1) {
-                        Some(arg) => {
-                            if let Some(arg) = arg.first() {
-                                match arg {
-                                    Piece::Text(key) => key.to_owned(),
-                                    Piece::Error(ref e) => return Chunk::Error(e.clone()),
-                                    _ => return Chunk::Error("invalid MDC default".to_owned()),
-                                }
-                            } else {
-                                return Chunk::Error("invalid MDC default".to_owned());
-                            }
-                        }
-                        None => "",
+                        Some(arg) => match literal_arg(arg, "invalid MDC default") {
+                            Ok(default) => default,
+                            Err(e) => return Chunk::Error(e),
+                        },
+                        None => String::new(),
                     };
 
                     Chunk::Formatted {
@@ -572,6 +558,23 @@ impl<'a> From<Piece<'a>> for Chunk {
             Piece::Error(err) => Chunk::Error(err),
         }
     }
+}
+
+/// The literal text of a formatter argument: its text pieces joined (an escaped
+/// character is a piece of its own), or the message of the error to report.
+fn literal_arg(arg: &[Piece], what: &str) -> Result<String, String> {
+    if arg.is_empty() {
+        return Err(what.to_owned());
+    }
+    let mut text = String::new();
+    for piece in arg {
+        match *piece {
+            Piece::Text(t) => text.push_str(t),
+            Piece::Error(ref e) => return Err(e.clone()),
+            Piece::Argument { .. } => return Err(what.to_owned()),
+        }
+    }
+    Ok(text)
 }
 
 fn no_args(arg: &[Vec<Piece>], params: Parameters, chunk: FormattedChunk) -> Chunk {
